@@ -38,9 +38,21 @@ ENTRY_POINTS = ['from_string_newid', 'from_string_noid', 'from_string_direct', '
 _counter = [0]
 
 
+_filenames = __import__('itertools').count(1)
+
+
 def fresh_id(tag='g'):
+    """Graph ids are arbitrary strings: mostly plain words, now and then URN / URL style (with slashes), very long, or with
+    blanks, quotes and non-ASCII letters."""
     _counter[0] += 1
-    return f'{tag}-{os.getpid()}-{_counter[0]}'
+    k = _counter[0]
+    if k % 5 == 3:
+        return f'urn:fabric:{tag}/{os.getpid()}/{k}'
+    if k % 11 == 7:
+        return f'{tag}-{os.getpid()}-{k}-' + 'x' * 280
+    if k % 13 == 5:
+        return f'{tag} {os.getpid()} "{k}" \u00e9\\'
+    return f'{tag}-{os.getpid()}-{k}'
 
 
 # --------------------------------------------------------------------------- independent parsers
@@ -138,7 +150,7 @@ def do_import(env, store, ep, text, src_gid):
         return imp.import_graph_from_string_direct(graph_string=text), src_gid
     # half of the file imports go through ONE path that is overwritten each time (a user saving to 'slice.graphml' again)
     reuse = env.ctx.rng.random() < 0.5
-    path = os.path.join(env.tmp, 'model.txt' if reuse else fresh_id('f') + '.txt')
+    path = os.path.join(env.tmp, 'model.txt' if reuse else 'f-%d.txt' % next(_filenames))
     if reuse and ep in ('from_file_newid', 'from_file_direct', 'topology_load_file'):
         env.ctx.count('file-import-through-reused-path')
     if ep in ('from_file_newid', 'from_file_direct', 'topology_load_file'):
